@@ -118,6 +118,60 @@ def compare(base, other, what):
     return bad
 
 
+def map_part(ctx, dist):
+    """The same graph mapped over the same lists by SyncRunner.map and by AsyncRunner.map under max_concurrency None/1/2/3 and
+    adversarial completion orders of the items (the first item finishing last, random orders): the list of results - status and
+    values of item k in slot k - is the same in every case."""
+    import random as _r
+    from harness.props.c10 import item_graph, make_lists
+    rng = ctx.rng
+    n = 0
+    for _ in range(ctx.n(30, 250)):
+        g, params = item_graph(rng)
+        over = rng.sample(params, rng.randint(1, len(params)))
+        mode = rng.choice(["zip", "product"])
+        inputs = make_lists(rng, over, mode, allow_bad=False)
+        for p in params:
+            if p not in over:
+                inputs[p] = rng.randint(0, 4)
+        inputs["k"] = rng.randint(5, 9)
+        base_rc = {"runner": "sync", "inputs": inputs, "error_handling": "continue", "map": {"over": over, "mode": mode}}
+        base = pdl.run_real(g, base_rc)
+        n += 1
+        if base["status"] != "mapped":
+            continue
+        want = [(r["status"], r["values"], r["error"]) for r in base["results"]]
+        for mc in (None, 1, 2, 3):
+            seed = rng.randint(0, 10**6)
+            rr = _r.Random(seed)
+            slow_first = rng.random() < 0.5
+            first = [True]
+
+            def rank(name, rr=rr, slow_first=slow_first, first=first):
+                if slow_first and first[0]:
+                    first[0] = False
+                    return 10.0          # the item that starts first completes last
+                return rr.random()
+            rc = {"runner": "async", "inputs": inputs, "error_handling": "continue", "map": {"over": over, "mode": mode},
+                  "max_concurrency": mc, "sched_seed": seed, "fresh_rank": True}
+            o = pdl.run_real(g, rc, rank=rank)
+            n += 1
+            dist["map_runs"] = dist.get("map_runs", 0) + 1
+            got = [(r["status"], r["values"], r["error"]) for r in o.get("results", [])] if o["status"] == "mapped" else o["status"]
+
+            def same(w, g_):
+                # a failed item: same error, and every partial value SyncRunner returns is returned identically (AsyncRunner may
+                # hold more: siblings of the failing node in its step complete)
+                if w[0] == "failed":
+                    return g_[0] == "failed" and g_[2] == w[2] and all(k in g_[1] and g_[1][k] == v for k, v in w[1].items())
+                return w == g_
+            if not isinstance(got, list) or len(got) != len(want) or not all(same(w, g_) for w, g_ in zip(want, got)):
+                ctx.violation("oracle", f"AsyncRunner.map(max_concurrency={mc}, item completion order seed {seed}{', first item last' if slow_first else ''}) "
+                              f"returned {str(got)[:300]}; SyncRunner.map returns {str(want)[:300]}",
+                              case={"graph": g, "over": over, "mode": mode, "inputs": inputs, "max_concurrency": mc, "sched_seed": seed})
+    return n
+
+
 def run(ctx):
     rng = ctx.rng
     n_prog = ctx.n(220, 1500)
@@ -158,6 +212,7 @@ def run(ctx):
             cases.append((g2, {"inputs": inputs, "error_handling": "continue", "max_iterations": 60, "runner": "sync", "permuted": True}))
             dist["perm"] += 1
         groups.append(idxs)
+    n_map = map_part(ctx, dist)
     obs_all, res = engine.run_cases(ctx, "C02", cases)
     nontrivial = set()
     for idxs in groups:
@@ -185,10 +240,11 @@ def run(ctx):
             if o.get("peak_inflight", 0) >= 2:
                 nontrivial.add(engine.program_key(g, rc))
     ctx.coverage.update(
-        evaluations=len(cases), coq_checks=res["n"], distinct_nontrivial=len(nontrivial),
+        evaluations=len(cases) + n_map, coq_checks=res["n"], distinct_nontrivial=len(nontrivial),
         rule="programs from the families dag / gated / loop (L1, L2) / emit+wait_for, 25% with 1-2 failing nodes; each run by "
              "SyncRunner, by AsyncRunner under 3-8 adversarial completion orders (turnstile) x max_concurrency in {None,1,2,3}, and with "
-             "the node list permuted; non-trivial = an async execution in which >=2 node bodies were in flight together",
+             "the node list permuted; plus item graphs mapped by SyncRunner.map and AsyncRunner.map under max_concurrency None/1/2/3 and adversarial item "
+             "completion orders; non-trivial = an async execution in which >=2 node bodies were in flight together",
         distribution=dist, samples=[{"graph": cases[1][0]["nodes"], "run": cases[1][1]}],
         traces_validated_against_impl=len(obs_all), disagreements_checked=res["n"])
     ctx.assumptions += ["completion order is controlled from inside node bodies (async functions awaiting harness futures); nodes are "
